@@ -152,10 +152,70 @@ def ent_tla(e):
 
 
 def dl_consts(mode, check, maxrec, dests=('dir', 'none', 'file'),
-              conts=(True, False)):
+              conts=(True, False), globfilter=False):
     return dict(Mode=f'"{mode}"', CheckNames=B(check), FilterNames=B(check),
                 DestKinds=SS(dests), Conts='{' + ', '.join(B(c) for c in conts) + '}',
-                MaxRec=maxrec, Fuel=8)
+                MaxRec=maxrec, Fuel=8, GlobFilter=B(globfilter))
+
+
+# glob patterns below the searched directory "s": wildcard segments and runs
+# of literal components
+GLOB_PATTERNS = ['*', '?', '[ab]', '**', 'a*', '*/a', '**/a', '*/*']
+MGET_NAMES = ['a', 'b', 'x/..', '../x', '/x', 'a/b', '.', '..', '', '../..',
+              'x/.']
+WILD = '*?[]'
+
+
+def pat_segments(pat):
+    """the way SFTPGlob._split() cuts a pattern (after the plain prefix)"""
+    segs, plain = [], []
+    for cur in pat.split('/'):
+        if any(c in cur for c in WILD):
+            if plain:
+                segs.append(('lit', plain))
+                plain = []
+            segs.append(('w', cur))
+        else:
+            plain.append(cur)
+    if plain:
+        segs.append(('lit', plain))
+    return segs
+
+
+def pat_tla(pat):
+    out = []
+    for k, v in pat_segments(pat):
+        if k == 'w':
+            out.append('[k |-> "w", v |-> <<"%s">>]' % v)
+        else:
+            out.append('[k |-> "lit", v |-> <<%s>>]' %
+                       ', '.join('"%s"' % c for c in v))
+    return '<<' + ', '.join(out) + '>>'
+
+
+def pat_of_model(segs):
+    return '/'.join('/'.join(x['v']) for x in segs)
+
+
+def mget_defs(entries):
+    import fnmatch
+    wilds = sorted({v for p in GLOB_PATTERNS for k, v in pat_segments(p)
+                    if k == 'w'})
+    names = sorted({e['name'] for e in entries} |
+                   {s_['name'] for e in entries for s_ in e['sub']})
+    rel = [(w, n) for w in wilds for n in names
+           if fnmatch.fnmatch(n.encode(), w.encode())]
+    return dict(SNames='{}', Backslash='{}',
+                Entries='{' + ', '.join(ent_tla(e) for e in entries) + '}',
+                Patterns='{' + ', '.join(pat_tla(p) for p in GLOB_PATTERNS) + '}',
+                Matches='{' + ', '.join('<<<<"%s">>, %s>>' % (w, P(n))
+                                        for w, n in rel) + '}')
+
+
+def mget_entries():
+    sub = [ent('evil', 'file')]
+    return [ent(n, 'file') for n in MGET_NAMES] + \
+        [ent(n, 'dir', sub=sub) for n in MGET_NAMES]
 
 
 SCP_NAMES = ['a', '..', '.', 'a/b', '/a', 'a\\b', '']
@@ -296,7 +356,7 @@ def main(ctx):
         jobs[f'fs simulate {bias}'] = sim
 
     scpdefs = dict(SNames=PS(SCP_NAMES), Backslash=PS(['a\\b']),
-                   Entries='{}')
+                   Entries='{}', Patterns='{}', Matches='{}')
     jobs['scp sink (exhaustive + table)'] = lambda: run_mc(
         'PathConfineDL', 'scp', dl_consts('scp', True, 3), scpdefs,
         ['AllCreatedUnderDest', 'EmitAll'], workers=1, timeout=800)
@@ -312,7 +372,8 @@ def main(ctx):
             'PathConfineDL', f'scp_w_{wit}', dl_consts('scp', True, 3),
             scpdefs, [wit], workers=2))
     getdefs = lambda es: dict(SNames='{}', Backslash='{}', Entries='{' +
-                              ', '.join(ent_tla(e) for e in es) + '}')
+                              ', '.join(ent_tla(e) for e in es) + '}',
+                              Patterns='{}', Matches='{}')
     nent = 2 if quick else 3
     gd = ('dir', 'none')
     jobs['get (table)'] = lambda: run_mc(
@@ -329,7 +390,27 @@ def main(ctx):
         'PathConfineDL', 'get_filt_l', dl_consts('get', True, 2, gd),
         getdefs(get_entries(True)), ['AllCreatedUnderDest'], workers=2)
 
+    md = ('dir', 'none')
+    mdefs = mget_defs(mget_entries())
+    jobs['mget / glob (table)'] = lambda: run_mc(
+        'PathConfineDL', 'mget_t',
+        dl_consts('mget', variant['get_filter'], 1 if quick else 2, md,
+                  globfilter=variant['glob_filter']),
+        mdefs, ['EmitM'], workers=1, timeout=800)
+    jobs['mget as written'] = lambda: run_mc(
+        'PathConfineDL', 'mget_asis', dl_consts('mget', True, 1, md), mdefs,
+        ['AllCreatedUnderDest'], workers=2)
+    jobs['glob names as written'] = lambda: run_mc(
+        'PathConfineDL', 'glob_asis', dl_consts('mget', True, 1, md), mdefs,
+        ['GlobNamesUnderSearched'], workers=2)
+    jobs['mget / glob refusing listed names with a separator'] = lambda: run_mc(
+        'PathConfineDL', 'mget_filt',
+        dl_consts('mget', True, 1 if quick else 2, md, globfilter=True), mdefs,
+        ['AllCreatedUnderDest', 'GlobNamesUnderSearched'], workers=W,
+        timeout=800)
     expect = {
+        'mget as written': 'AllCreatedUnderDest',
+        'glob names as written': 'GlobNamesUnderSearched',
         'map as-written': 'MapUnderRoot',
         'map without normpath': 'MapUnderRoot',
         'fs as written': 'AllTouchedUnderRoot',
@@ -374,6 +455,7 @@ def main(ctx):
 
     # ---- 4. part (iii): downloads ----------------------------------------
     replay_dl(ctx, pc, results, quick)
+    replay_mget(ctx, pc, results, quick)
 
     ctx.assumptions += [
         'path alphabet {"a","b","",".",".."}; <= 5 (quick) / 6 components; '
@@ -412,6 +494,9 @@ def probe_variants(pc):
         r = d.run_get([dict(name=b'../../x', type='file', t=b'', sub=[])],
                       'dir', True)
         v['get_filter'] = not (r['escapes'] or r['outside'])
+        r = d.run_glob(b'*', [dict(name=b'x/../y', type='file', t=b'',
+                                   sub=[])], True)
+        v['glob_filter'] = not any(b'..' in n for n in (r['names'] or []))
     finally:
         d.close()
     return v
@@ -665,7 +750,10 @@ def replay_fs(ctx, pc, results, rule, quick):
                                 init_requests(init) + script[:idx + 1],
                                 causes, evs)
                 continue
-            out = pc.run_script(world, init, script, final, want)
+            # quick: the deepest shapes get the shorter battery
+            short = quick and len(script) >= 3
+            out = pc.run_script(world, init, script, final, want,
+                                probes=QUICK_PROBES if short else None)
             nseq += 1
             nprobe += out['nprobes']
             nlinks += bool(out['nprobes'])
@@ -774,7 +862,7 @@ def replay_spelled(ctx, pc, results, quick, found, cache, world3):
     if quick and len(cases) > 1300:
         short = [c for c in cases if len(c[0]) <= 1]
         rest = [c for c in cases if len(c[0]) > 1]
-        cases = short + rest[::len(rest) // 1100 + 1]
+        cases = short + rest[::len(rest) // 800 + 1]
     forms = [dict(sftp_version=3), dict(sftp_version=6),
              dict(sftp_version=3, openssh_order=True)]
     n = nprobes = nsusp = 0
@@ -837,6 +925,10 @@ def replay_spelled(ctx, pc, results, quick, found, cache, world3):
                      f'{per_form}; probe battery triggered on {nsusp} '
                      f'({nprobes} probes)')
     return n
+
+
+QUICK_PROBES = ['lstat', 'stat', 'readlink', 'open_r', 'open_w', 'remove',
+                'rmdir']
 
 
 def init_requests(init):
@@ -972,6 +1064,114 @@ def dl_real_shape(snap, area_top):
 DECOY_LOCS = {('T', 'secret'), ('T', 'sdir'), ('T', 'sdir', 'inner')}
 
 
+def replay_mget(ctx, pc, results, quick):
+    """Client-side glob expansion over hostile listings: every case of the
+    TLC table through the real SFTPClient.mget(recurse=True) (what is created
+    locally) and the real glob() / glob_sftpname() (the names returned)."""
+    import posixpath
+    world = pc.DownloadWorld()
+    top = world.area.top
+    found = {}
+    n = 0
+    try:
+        cases = printed_blocks(results['mget / glob (table)'], 'MCASE')
+        ctx.require(len(cases) > 100, 'no mget case table')
+        cases.sort(key=lambda c: json.dumps(c, sort_keys=True))
+        if len(cases) > (900 if quick else 6000):
+            short = [c for c in cases if len(c[1]) <= 1]
+            rest = [c for c in cases if len(c[1]) > 1]
+            cases = short + rest[::len(rest) // (300 if quick else 5000) + 1]
+        if quick:
+            cases = [c for i, c in enumerate(cases)
+                     if (c[0]['dest'] == 'dir' and c[0]['cont']) or i % 6 == 0]
+
+        def note(kind, cfg, hist, ex, run_again):
+            seq = list(hist)
+            i = 0
+            while i < len(seq) and len(seq) > 1:
+                cand = seq[:i] + seq[i + 1:]
+                if run_again(cand):
+                    seq = cand
+                else:
+                    i += 1
+            shape = dl_history('get', seq, False)
+            key = (kind, shape)
+            inp = (f'pattern={pat_of_model(cfg["pat"])!r} dest={cfg["dest"]}',)\
+                + tuple(ent_str(conv_ent(e, '/T')) for e in seq)
+            old = found.get(key)
+            if old is None or (len(inp), inp) < (len(old[0]), old[0]):
+                found[key] = (inp, ex, dict(mode='mget', cfg=cfg, hist=seq))
+
+        for cfg, hist, _state, created, tree, names in cases:
+            pat = pat_of_model(cfg['pat']).encode()
+            ents = [conv_ent(e, top) for e in hist]
+            created = [tuple(l) for l in created['$set']]
+            mesc = any(l[:2] != ('T', 'D') for l in created)
+            r = world.run_mget(pat, ents, cfg['dest'], cfg['cont'])
+            n += 1
+            desc = [ent_str(e) for e in ents]
+            ctx.count(('mget', pat, cfg['dest'], cfg['cont'], tuple(desc)),
+                      nontrivial=bool(created))
+            if n % 200 == 1:
+                ctx.sample({'part': 'mget', 'pattern': 's/' + pat.decode(),
+                            'dest': cfg['dest'], 'listing': desc,
+                            'exception': r['exc'], 'created': sorted(
+                                '/'.join(k) for k in dl_real_shape(
+                                    r['snap'], top))})
+            resc = bool(r['escapes'] or r['outside'])
+            if resc:
+                ex = [e.as_list() for e in r['escapes'][:2]] or r['outside']
+                ex = json.loads(json.dumps(ex).replace(top, '/T'))
+
+                def again(h, cfg=cfg, pat=pat):
+                    rr = world.run_mget(pat, [conv_ent(e, top) for e in h],
+                                        cfg['dest'], cfg['cont'])
+                    return bool(rr['escapes'] or rr['outside'])
+                note('mget-hostile-name', cfg, hist, ex, again)
+            if resc != mesc:
+                ctx.divergence(f'mget {pat!r} {cfg["dest"]} {desc}: creation '
+                               f'outside dest observed={resc} predicted={mesc}')
+            elif not resc:
+                a = dl_real_shape(r['snap'], top)
+                b = dl_model_shape(tree['$set'])
+                if a != b:
+                    ctx.divergence(f'mget {pat!r} {cfg["dest"]} cont='
+                                   f'{cfg["cont"]} {desc}: tree observed={a} '
+                                   f'predicted={b} exc={r["exc"]}')
+            # the names glob() hands to the application
+            if cfg['dest'] == 'dir' and (cfg['cont'] or not quick):
+                g = world.run_glob(pat, ents, cfg['cont'], sftpname=n % 2 == 0)
+                n += 1
+                if g['names'] is not None:
+                    got = [x.decode('utf-8', 'backslashreplace')
+                           for x in g['names']]
+                    want = ['/'.join(x) for x in names]
+                    bad = [x for x in got if x.startswith('/') or not (
+                        posixpath.normpath(x) + '/').startswith('s/')]
+                    if bad:
+                        def again_g(h, cfg=cfg, pat=pat):
+                            gg = world.run_glob(pat, [conv_ent(e, top)
+                                                      for e in h], cfg['cont'])
+                            return any(x.startswith(b'/') or not (
+                                posixpath.normpath(x) + b'/').startswith(b's/')
+                                for x in (gg['names'] or []))
+                        note('glob-name-outside-searched-directory', cfg, hist,
+                             bad[:3], again_g)
+                    if got != want:
+                        ctx.divergence(f'glob {pat!r} {desc}: names observed='
+                                       f'{got} predicted={want}')
+        ctx.traces_validated(n)
+        for (kind, shape), (inp, ex, raw) in sorted(found.items()):
+            ctx.notes.append(f'{kind} {list(shape)}: e.g. ' + '; '.join(inp))
+            ctx.violation(
+                {'module': 'PathConfine', 'kind': kind, 'history': list(shape)},
+                f'client-side glob expansion over a hostile listing ({kind}, '
+                f'history {list(shape)}): e.g. {list(inp)} -> {ex}',
+                replay=dict(raw, kind='mget'))
+    finally:
+        world.close()
+
+
 def has_link(hist):
     return any(e.get('type') == 'link' or has_link(e.get('sub', []))
                for e in hist)
@@ -1092,7 +1292,9 @@ def dl_history(mode, seq, preserve, rr_ev=None):
     def name_class(nm):
         nm = '/'.join(nm)
         return ('empty-name' if nm == '' else 'dot' if nm == '.' else
-                'dotdot' if nm == '..' else 'absolute' if nm.startswith('/')
+                'dotdot' if nm == '..' else
+                'ends-in-dotdot' if nm.endswith('/..') else
+                'absolute' if nm.startswith('/')
                 else 'with-separator' if '/' in nm else
                 'with-backslash' if '\\' in nm else 'plain')
 
